@@ -22,7 +22,7 @@ CLAIMED = {
                 note="Judges only library-driven pulling (a caller's own zip/break is a reach probe). Reference for numeric consumers is the same public function on the per-contig dict route.",
                 tech=TECH + "contig-order x cut-set x consumer-pull-pattern schedule with sampled PYTHONHASHSEED per worker; entry-conservation oracle over the delivered history"),
     "C15": dict(engine="iosim", cat="fault_enumeration", ref="§4 C15",
-                text="Fault = corruption of stored bytes: for each sampled well-formed file one violation of each listed class (record marker, FASTQ '+', non-numeric digit, foreign strand symbol (replacing, appended to or in front of a valid one), fewer/more columns, a pair of lines whose column deviations cancel, torn tail) is injected at a drawn record position; then all chunk sizes from the largest entry to size+2 x lazy/eager x plain/gzip are enumerated. Every read touching the affected data must raise; FormatException.line_number must lie in the offending record and be identical over the whole schedule.",
+                text="Fault = corruption of stored bytes: for each sampled well-formed file one violation of each listed class (record marker, FASTQ '+' replaced or removed, non-numeric digit, a numeric field that is a lone sign / lone decimal point / empty, foreign strand symbol (replacing, appended to or in front of a valid one), fewer/more columns, a pair of lines whose column deviations cancel, torn tail) is injected at a drawn record position; then all chunk sizes from the largest entry to size+2 x lazy/eager x plain/gzip are enumerated. Every read touching the affected data must raise; FormatException.line_number must lie in the offending record and be identical over the whole schedule.",
                 note="The model's strict validator decides whether the corrupted file is malformed and which line offends; outcomes outside the classes the property lists (e.g. truncated FASTQ record) are counted, not judged.",
                 tech=TECH + "stored-byte corruption / torn-tail fault injection by violation class x record position, chunk-size sweep, must-raise + line-number-invariance oracle"),
     "C17": dict(engine="iosim", cat="exploration", ref="§4 C17",
@@ -46,11 +46,11 @@ CLAIMED = {
                 note="Trusts bnpsim/models/bam.py (validated against the repo's example .bam/.sam twins: byte-exact re-encoding). Chunk sizes below the largest record are probed, not judged.",
                 tech=TECH + "BGZF member-layout x chunk-size schedule over SimFS + EIO fault; independent spec-level encoder/decoder as oracle"),
     "C05": dict(engine="lazysim", cat="exploration", ref="§4 C05",
-                text="Seeded search: the same operation history (len, field access, slice/mask/integer-list/single index, concatenate, replace, tolist, write; <= 12 ops, whole or chunked origin) is run in lock-step on the lazily and the eagerly read twin of a canonical generated file; every step must give equal values / equal written bytes or fail in both, and every variable is observed (len, all fields, written bytes) in both worlds at the end. Twin formats: BED3/6/12, bedGraph, narrowPeak, SAM, VCF plain and typed INFO, FASTQ, FASTA, and BAM (lazy vs eager decode of the same BGZF bytes); attribute assignment is one of the operations.",
+                text="Seeded search: the same operation history (len, field access, slice/mask/integer-list/single index, concatenate, replace, tolist, write; <= 12 ops, whole or chunked origin) is run in lock-step on the lazily and the eagerly read twin of a canonical generated file; every step must give equal values / equal written bytes or fail in both, and every variable is observed (len, all fields, written bytes) in both worlds at the end. Twin formats: BED3/6/12, bedGraph, narrowPeak, SAM, VCF plain and typed INFO, FASTQ, FASTA, and BAM (lazy vs eager decode of the same BGZF bytes); attribute assignment is one of the operations, boolean masks are ndarrays or plain Python lists, and a write may go to the other sequence format (FASTQ -> FASTA, FASTA -> FASTQ).",
                 note="Canonical sources only (LF, repr floats, no '.' placeholders, no extra columns) so that C04's intended lazy/eager difference cannot appear; exceptions compare as raised / not raised.",
                 tech=TECH + "lock-step twin execution of operation histories on lazy vs eager tables (step-wise equality oracle)"),
     "C20": dict(engine="lazysim", cat="exploration", ref="§4 C20",
-                text="Seeded search over operation histories on file chunks (lazy and eager, whole or chunked origin, non-canonical text: signs, scientific floats, list-valued, typed-INFO, genotype-matrix and extra columns): every operation is bracketed — the operands' observable state (length, every field value, the bytes the chunk would write) from a fresh replay of the history prefix must equal their state after the operation, and applying the operation twice must give equal results. An API actor additionally calls 52 registry functions (number<->text conversion in signed, unsigned, decimal and scientific batches; interval arithmetic incl. intersect, count_overlap, jaccard; Genome.get_intervals(...).get_mask/get_pileup/merged/clip/extended_to_size/sorted; table sort_by/concatenate/replace/indexing/tolist; reverse complement, k-mers, minimizers, match_string, translate; encoding changes) on live objects of the run under an argument snapshot.",
+                text="Seeded search over operation histories on file chunks (lazy and eager, whole or chunked origin, non-canonical text: signs, scientific floats, list-valued, typed-INFO, genotype-matrix and extra columns): every operation is bracketed — the operands' observable state (length, every field value, the bytes the chunk would write) from a fresh replay of the history prefix must equal their state after the operation, and applying the operation twice must give equal results. An API actor additionally calls 58 registry functions (argument snapshots come from a twin object that is never handed to the function; arguments include row / column slices and split pieces that are still views) (number<->text conversion in signed, unsigned, decimal and scientific batches; interval arithmetic incl. intersect, count_overlap, jaccard; Genome.get_intervals(...).get_mask/get_pileup/merged/clip/extended_to_size/sorted; table sort_by/concatenate/replace/indexing/tolist; reverse complement, k-mers, minimizers, match_string, translate; encoding changes) on live objects of the run under an argument snapshot.",
                 note="File-chunk clause decided by search; the registry clause is a monitor on sampled live objects, not a search over the registry's input space (stated in the evidence assumptions).",
                 tech=TECH + "snapshot bracket via fresh prefix replay around every operation of a simulated history + API actor on live objects"),
 }
